@@ -161,11 +161,16 @@ def run_case(case: Dict[str, Any], ctx) -> None:
             continue
         any_nonzero = True
         ctx.count("fit:gradients", 3)
+        # a gradient element that is a SUM over n upstream elements (weight / bias / broadcast operands): in 16-bit dtypes the
+        # library's products are rounded per term before the sum, PyTorch's fused backward rounds once - the difference grows
+        # like sqrt(n) ulps
+        n_terms = max(1, (A.out_u.numel() if A.out_u is not None else 1) // max(1, A.grads_u[name].numel()))
+        red = max(1.0, n_terms ** 0.5 / 2) if dtype in (torch.bfloat16, torch.float16) else 1.0
         for b, r, tag in zip(bs, rs, "ABC"):
             if r > tol and lowp:
                 # low precision: is the deviation above what PyTorch's own op suffers on these very inputs?
                 noise = noise_of(tag, name)
-                if r <= 8 * noise + tol:
+                if r <= 8 * noise + tol * red:
                     ctx.count("lowp:within-noise-of-the-reference-op")
                     continue
             if r > tol:
@@ -176,12 +181,12 @@ def run_case(case: Dict[str, Any], ctx) -> None:
             if not (b > 0):
                 ctx.violation(key(f"grad-scalar-not-positive:{name}"), f"b={b!r}", cfg=cfg, constraint=constraint)
                 return
-        if not rel_close(bs[0], bs[1], stol) and lowp and rel_close(bs[0], bs[1], stol + 8 * (noise_of("A", name) + noise_of("B", name))):
+        if not rel_close(bs[0], bs[1], stol) and lowp and rel_close(bs[0], bs[1], stol * red + 8 * (noise_of("A", name) + noise_of("B", name))):
             ctx.count("lowp:scalar-within-noise-of-the-reference-op")
         elif not rel_close(bs[0], bs[1], stol):
             ctx.violation(key(f"grad-scalar-depends-on-data:{name}"), f"b_A={bs[0]!r} b_B={bs[1]!r}", cfg=cfg,
                           constraint=constraint, dtype=case["dtype"])
-        if not rel_close(bs[0], bs[2], stol) and lowp and rel_close(bs[0], bs[2], stol + 8 * (noise_of("A", name) + noise_of("C", name))):
+        if not rel_close(bs[0], bs[2], stol) and lowp and rel_close(bs[0], bs[2], stol * red + 8 * (noise_of("A", name) + noise_of("C", name))):
             ctx.count("lowp:scalar-within-noise-of-the-reference-op")
         elif not rel_close(bs[0], bs[2], stol):
             ctx.violation(key(f"grad-scalar-depends-on-upstream:{name}"), f"b_A={bs[0]!r} b_C={bs[2]!r}", cfg=cfg,
